@@ -29,7 +29,7 @@ func parsePattern(p string) []tok {
 	lit := ""
 	for i := 0; i < len(p); {
 		c := p[i]
-		if (c == ':' || c == '*') && i > 0 && (p[i-1] == '/' || (c == ':' && p[i-1] == '=')) {
+		if (c == ':' || c == '*') && i > 0 && (p[i-1] == '/' || (c == ':' && (p[i-1] == '=' || p[i-1] == '.'))) {
 			if lit != "" {
 				out = append(out, tok{'L', lit})
 				lit = ""
@@ -360,15 +360,26 @@ func universe(segs []string, maxSeg int, withWild bool) []string {
 			return
 		}
 		for _, s := range segs {
-			seg := s
-			if strings.Contains(s, ":p") {
-				seg = strings.Replace(s, ":p", fmt.Sprintf(":p%d", depth+1), 1)
+			if strings.HasPrefix(s, "a.:") && !strings.Contains(prefix, "/:") {
+				// a placeholder in the middle of a segment ("/a.:p") is generated only after an ordinary
+				// placeholder: alone, the router files the pattern under its static keys
+				continue
 			}
-			rec(prefix+"/"+seg, depth+1)
+			rec(prefix+"/"+s, depth+1)
 		}
 	}
 	rec("", 0)
 	sort.SliceStable(out, func(i, j int) bool { return len(out[i]) < len(out[j]) })
+	// placeholder names are unique per pattern and position (p<pattern>x<k>, w<pattern>), so that a
+	// name that leaks from one record into another is visible
+	for i, p := range out {
+		k := 0
+		for strings.Contains(p, ":p/") || strings.HasSuffix(p, ":p") {
+			k++
+			p = strings.Replace(p, ":p", fmt.Sprintf(":n%dx%d", i, k), 1)
+		}
+		out[i] = strings.Replace(p, "*w", fmt.Sprintf("*w%d", i), 1)
+	}
 	return out
 }
 
@@ -420,11 +431,13 @@ func main() {
 			{"pairs-full-universe", big, []int{1, 2}, paths(alpha, 6), true},
 			{"triples-small-universe", small, []int{3}, paths(alpha, 6), true},
 			{"quads-tiny-universe", universe([]string{"a", ":p"}, 3, true), []int{4}, paths([]string{"/", "a", "x", ":", "*", "#"}, 6), true},
+			{"mid-segment-placeholders", universe([]string{"a", ":p", "a.:p"}, 3, true), []int{1, 2, 3}, paths([]string{"/", "a", ".", "x", ":", "#"}, 7), true},
 		}
 	} else {
 		sweeps = []sweep{
 			{"pairs-full-universe", big, []int{1, 2}, paths(alpha, 5), true},
 			{"triples-small-universe", small, []int{3}, paths([]string{"/", "a", "b", "x", ":", "#"}, 5), false},
+			{"mid-segment-placeholders", universe([]string{"a", ":p", "a.:p"}, 3, true), []int{1, 2}, paths([]string{"/", "a", ".", "x", ":"}, 7), true},
 		}
 	}
 	r.Set("path_alphabet", alpha)
